@@ -23,6 +23,8 @@ claimed = {
  "C11": ("sec 7", "can_put/can_get/occupancy regenerated from source and proved equivalent to immediate grant (Coq); timed buffer model with delay theorems; differential correspondence on the real Buffer edge with probes",
   "Theorems C11_can_{put,get}_iff_immediate_grant (for the expressions regenerated from edges/buffer.py and edges/fleet.py on every run, in every state satisfying the reachable-state invariants), C11_occupancy_counts_both, and the delay theorems C11_not_ready_before_due / C11_get_returns_due_item / C11_available_from_due / C11_available_after_due over every legal timed history of the TBuffer model (the kernel's 'processed at its scheduled time' contract is the legality condition and is checked against the real kernel by the correspondence)."),
 }
+claimed["C14"] = ("sec 7", "timed Fleet model with batch / round-trip / waiting-bound theorems by invariant induction over legal histories (Coq); differential correspondence on the real Fleet edge (micro-step exact) and inside factories",
+  "Theorems C14_departure_condition (the activation fires only at the delay deadline or after the capacity trigger), C14_capacity_trigger (the trigger is set exactly by the load that makes held items reach the capacity), C14_batch_is_waiting_items (exactly the held items not already travelling leave, in loading order, due one full round trip later; timer re-armed), C14_batch_arrives_together (the whole batch is appended to the ready items in one instant, exactly when due), C14_waiting_bound (every legal timed history, every capacity / delay / transit delay incl. zero: load + 2*transit <= availability <= load + delay + 2*transit), C14_later_load_waits. The kernel contract (an event is processed at its scheduled time; the clock never passes a pending event) is the legality condition of the timed model and is checked against the real kernel by the correspondence. The bound is proved for every item that became available; that it does become available rests on the kernel contract.")
 na = {
 }
 L2_NOTE = ("Trusted: Coq 8.16.1 kernel; no axioms (Print Assumptions re-measured on every run); the node / edge classes and the "
@@ -62,7 +64,7 @@ for pid, (ref, tech, text) in claimed.items():
         replay_cmd_template="/venv/bin/python checks/check.py %s --replay {path}" % pid,
         engine="coq", level_claimed=dict(category="proof", text=text, design_ref="DESIGN.md " + ref),
         level_note=(L2_NOTE if pid in ('C03','C08','C09','C10','C15','C16','C17','C18','C19','C20') else L1_NOTE), technique=tech))
-default_na = "not claimed yet: the conveyor-belt edges (and the timed fleet theorems for C14) are not modelled in this round -- see DESIGN.md"
+default_na = "not claimed yet: the conveyor-belt edges' movement (belt motion, spacing, accumulation) is not modelled beyond the reservation layer -- see DESIGN.md"
 m = dict(version=1, setup_cmd="cd /verif && /venv/bin/python checks/setup.py",
          hooks=dict(guard="FACTORYSIMPY_VERIF", enable="no hooks: the harness wraps methods from outside and drives env.step() itself",
                     baseline_off_cmd="cd /repo && /venv/bin/python -m pytest -ra -q -p no:cacheprovider --timeout=900 --continue-on-collection-errors",
